@@ -292,6 +292,13 @@ def run (args : List String) : Option String :=
     let ops ← parseList? parseOp? ops
     let (σ, outs) := C19.run (mkWorld ts es) ops
     pure (",".intercalate (outs.map fmtOut) ++ s!" cache={σ.cache.length} tcache={σ.tcache.length}")
+  | ["histq", ts, es, ops] => do
+    -- observations only (when the harness cannot read the sizes of the two caches on the tree under test)
+    let ts ← parseList? parseTextEntry? ts
+    let es ← parseList? parseEpsgEntry? es
+    let ops ← parseList? parseOp? ops
+    let (_, outs) := C19.run (mkWorld ts es) ops
+    pure (",".intercalate (outs.map fmtOut))
   | "pair" :: ty :: rest => runPair ty rest
   | "clone" :: ty :: rest => runClone ty rest
   | ["fields", ty] => fieldsOf ty
